@@ -55,6 +55,8 @@ def plan(tier, seed):
     specs = [{"name": "k%02d" % i, "kind": "kernel", "shard": i, "instances": inst, "timeout": 7000} for i in range(n)]
     specs.append({"name": "exch", "kind": "exchange", "shard": 90, "cases": 3000 if tier == "quick" else 40000, "timeout": 7000})
     specs.append({"name": "orch", "kind": "orch", "shard": 91, "runs": 4 if tier == "quick" else 40, "timeout": 7000})
+    for i in range(4):
+        specs.append({"name": "comp%d" % i, "kind": "compound", "shard": 95 + i, "instances": 3 if tier == "quick" else 16, "timeout": 7000})
     return specs
 
 
@@ -64,7 +66,7 @@ def required(tier):
         "rows_dup_state": 500, "rows_multiallelic": 500, "rows_tempered": 500, "rows_inbred": 500,
         "perm_invariance_checked": 500, "m1_crosscheck": 200, "exchange_checked": 1000, "exchange_swaps_observed": 100,
         "orch_mutation_calls": 100, "orch_swap_calls": 50, "rows_cache_enabled": 500, "recomb_rows_with_options": 100,
-        "dosage_rows_with_options": 100,
+        "dosage_rows_with_options": 100, "compound_kernels_checked": 10, "compound_paths_enumerated": 2000,
     }
 
 
@@ -610,8 +612,114 @@ def run_orch(tier, seed, spec, col):
             col.sample({"orchestration": {"temps": temps.tolist(), "events": len(events), "first_events": [(e[0], e[1]) for e in events[:8]]}})
 
 
+def run_compound(tier, seed, spec, col):
+    """Exact transition kernels of the COMPOUND moves (one whole mutation sweep in every shuffled order; one whole
+    structural step over every permutation of an interval partition): every order and every sequence of random choices
+    is forced through the real compound_step.py_func -> base_step/interval_step.py_func; the tempered posterior over
+    unordered genotypes must be stationary (pi_T P = pi_T)."""
+    from mchap.assemble import mutation, structural
+
+    monitors.ensure_compiled()
+    shapes = [(2, [2, 2]), (3, [3]), (2, [4]), (2, [2, 3]), (3, [2]), (4, [2])]
+    for i in range(spec["instances"]):
+        rng = gen.rng_for(seed, ID, spec["shard"], i)
+        ploidy, na = shapes[(spec["shard"] + i) % len(shapes)]
+        I = make_instance(rng, "quick")
+        na = np.array(na, dtype=np.int8)
+        n_pos = len(na)
+        n_reads = int(rng.integers(1, 4))
+        reads = gen.gen_reads(rng, n_reads, na, n_nucl=int(na.max()), gap_rate=0.2, style="mchap")
+        I = dict(I, ploidy=ploidy, n_alleles=na, reads=reads, counts=gen.gen_counts(rng, n_reads), use_cache=False)
+        tgt = Target(I)
+        luh = float(np.log(na.astype(np.int64)).sum())
+        haps = gen.all_haplotypes(na)
+        gs = list(itertools.combinations_with_replacement(range(len(haps)), ploidy))
+        states = [np.array([haps[a] for a in g], dtype=np.int8).reshape(ploidy, n_pos) for g in gs]
+        keys = [Target.key(x) for x in states]
+        kidx = {k: j for j, k in enumerate(keys)}
+        lpi = np.array([tgt.log_pi(x) for x in states])
+        pi = np.exp(lpi - lpi.max())
+        pi /= pi.sum()
+        rep = {"instance": pack_instance(I)}
+
+        def py_base(_f=mutation.base_step.py_func, **kw):
+            return _f(**kw)
+
+        def py_interval(_f=structural.interval_step.py_func, **kw):
+            return _f(**kw)
+
+        def check_kernel(P, what):
+            col.count("compound_kernels_checked")
+            col.case("CK|%d|%d|%s" % (spec["shard"], i, what), nontrivial=True)
+            rows = P.sum(axis=1)
+            if np.abs(rows - 1).max() > 1e-9:
+                col.violation("row-not-a-distribution", "%s kernel rows sum to %s" % (what, rows.tolist()), rep)
+                return
+            res = float(np.abs(pi @ P - pi).max())
+            col.maxv("max_compound_stationarity_residual", res)
+            if res > 1e-9:
+                k = int(np.argmax(np.abs(pi @ P - pi)))
+                col.violation("compound-move-not-stationary-at-tempered-posterior", "%s: max |pi P - pi| = %.3g at genotype %s (T=%g F=%g ploidy %d n_alleles %s)"
+                              % (what, res, keys[k], I["T"], I["F"], ploidy, na.tolist()), rep)
+
+        # ---- mutation sweep: a fixed visiting order is NOT equivariant under row permutations, so its kernel is checked
+        # on ORDERED tuples: nu_T P = nu_T with nu_T(x) = pi_T(G(x)) / perms(G(x)) (the lift every base_step balances)
+        ord_states = [np.array(t, dtype=np.int8).reshape(ploidy, n_pos) for t in itertools.product(haps, repeat=ploidy)]
+        oidx = {x.tobytes(): j for j, x in enumerate(ord_states)}
+        lnu = np.array([tgt.log_nu(x) for x in ord_states])
+        nu = np.exp(lnu - lnu.max())
+        nu /= nu.sum()
+        n_sub = ploidy * n_pos
+        orders = list(itertools.permutations(range(n_sub)))
+        pick = [orders[k] for k in rng.permutation(len(orders))[: (3 if tier == "quick" else 8)]]
+        for order in pick:
+            P = np.zeros((len(ord_states), len(ord_states)))
+            for a, x in enumerate(ord_states):
+                def run(rec, x=x, order=order):
+                    g = x.copy()
+                    with monitors.patched((mutation, "random_choice", rec), (mutation, "np", monitors.NpRandomProxy(np.array(order))), (mutation, "base_step", py_base)):
+                        mutation.compound_step.py_func(g, I["reads"], tgt.llk(x), na, luh, I["F"], I["T"], I["counts"], None)
+                    return g.tobytes()
+
+                for final, pr, _ in monitors.enumerate_paths(run):
+                    col.count("compound_paths_enumerated")
+                    P[a, oidx[final]] += pr
+            col.count("compound_kernels_checked")
+            col.case("CK|%d|%d|mut%s" % (spec["shard"], i, order), nontrivial=True)
+            if np.abs(P.sum(axis=1) - 1).max() > 1e-9:
+                col.violation("row-not-a-distribution", "mutation sweep kernel rows sum to %s" % P.sum(axis=1).tolist()[:6], rep)
+                continue
+            res = float(np.abs(nu @ P - nu).max())
+            col.maxv("max_compound_stationarity_residual", res)
+            if res > 1e-9:
+                col.violation("compound-move-not-stationary-at-tempered-posterior", "mutation sweep in order %s: max |nu P - nu| = %.3g on ordered tuples (T=%g F=%g ploidy %d n_alleles %s)"
+                              % (order, res, I["T"], I["F"], ploidy, na.tolist()), rep)
+        # ---- structural compound step over a partition, both types
+        if n_pos >= 2:
+            parts = [np.array([[0, 1], [1, n_pos]]), np.array([[0, n_pos]])]
+        else:
+            parts = [np.array([[0, n_pos]])]
+        for intervals in parts:
+            for step_type in (0, 1):
+                for perm in itertools.permutations(range(len(intervals))):
+                    P = np.zeros((len(gs), len(gs)))
+                    for a, x in enumerate(states):
+                        def run(rec, x=x, perm=perm):
+                            g = x.copy()
+                            with monitors.patched((structural, "random_choice", rec), (structural, "np", monitors.NpRandomProxy(np.array(perm))), (structural, "interval_step", py_interval)):
+                                structural.compound_step.py_func(g, I["reads"], tgt.llk(x), intervals, luh, I["F"], step_type, True, I["T"], I["counts"], None)
+                            return Target.key(g)
+
+                        for final, pr, _ in monitors.enumerate_paths(run):
+                            col.count("compound_paths_enumerated")
+                            P[a, kidx[final]] += pr
+                    check_kernel(P, "structural compound step type %d intervals %s order %s" % (step_type, intervals.tolist(), perm))
+        if i == 0 and spec["shard"] == 95:
+            col.sample({"compound_kernel_instance": pack_instance(I), "genotypes": len(gs)})
+
+
 def run_shard(tier, seed, spec, col):
-    {"kernel": run_kernel, "exchange": run_exchange, "orch": run_orch}[spec["kind"]](tier, seed, spec, col)
+    {"kernel": run_kernel, "exchange": run_exchange, "orch": run_orch, "compound": run_compound}[spec["kind"]](tier, seed, spec, col)
 
 
 def replay(obj, col):
